@@ -295,6 +295,15 @@ def class_source(rec):
                 base = default_spec(a["kind"], a.get("default", "none"))
                 raw = K.get("mut", K.get("lit", "MISSING")) if a.get("default", "none") != "none" else "MISSING"
                 src = f" = Attr(default={raw}, invalidated_by={list(inv)!r})"
+            if a.get("prop") == "stored":
+                # served by a property WITHOUT setter whose getter hands out the instance's own (privately stored) collection:
+                # element helpers can edit what they read, but can never store it back
+                out.append(f"    {n}: {K['ann']}")
+                out.append(f"    @spec_property(cache=False, overridable=False)")
+                out.append(f"    def {n}(self):")
+                out.append(f"        CB.hit('getter')")
+                out.append(f"        return self.__dict__.setdefault('_{n}_store', {K.get('mut', K.get('lit'))})")
+                continue
             if a.get("prop"):
                 # the attribute is served by a (cached, overridable) spec_property: what is stored for it is an override or a cache
                 out.append(f"    {n}: {K['ann']}")
@@ -704,7 +713,14 @@ def failing_invalidation_records():
             # (a transitive dependant of the attribute being written) must be put back as well
             {"name": "CompInvFactoryChain", "attrs": [{"kind": "int", "default": "lit"}, {"kind": "str", "default": "lit"},
                                                        {"kind": "nums", "default": "attr_factory"}, {"kind": "scores", "default": "attr_factory"}],
-             "opts": {"invalidated_by": {"s": ["v"], "nums": ["s"], "scores": ["s"]}}}]
+             "opts": {"invalidated_by": {"s": ["v"], "nums": ["s"], "scores": ["s"]}}},
+            # the attribute being written is a COLLECTION edited by an in-place element helper: when the invalidation of
+            # its dependant fails, the element edit itself has to be undone as well (not only the attribute binding)
+            {"name": "CompInvFactoryColl", "attrs": [{"kind": "scores", "default": "mut"}, {"kind": "tags", "default": "mut"},
+                                                      {"kind": "nums", "default": "attr_factory"}],
+             "opts": {"invalidated_by": {"nums": ["scores", "tags"]}}},
+            {"name": "CompInvFactoryWords", "attrs": [{"kind": "words", "default": "mut"}, {"kind": "nums", "default": "attr_factory"}],
+             "opts": {"invalidated_by": {"nums": ["words"]}}}]
 
 
 def validated_item_records():
@@ -716,6 +732,8 @@ def property_served_records():
         {"name": "PropNums", "attrs": [{"kind": "nums", "default": "none", "prop": "cached"}, {"kind": "int", "default": "lit"}], "opts": {}},
         {"name": "PropScores", "attrs": [{"kind": "scores", "default": "none", "prop": "cached"}, {"kind": "int", "default": "lit"}], "opts": {}},
         {"name": "PropKidsUncached", "attrs": [{"kind": "kids", "default": "none", "prop": "uncached"}], "opts": {}},
+        {"name": "PropNumsStored", "attrs": [{"kind": "nums", "default": "none", "prop": "stored"}, {"kind": "int", "default": "lit"}], "opts": {}},
+        {"name": "PropTagsStored", "attrs": [{"kind": "tags", "default": "none", "prop": "stored"}, {"kind": "scores", "default": "none", "prop": "stored"}], "opts": {}},
     ]
 
 
